@@ -161,6 +161,24 @@ def subsetGids (f : Font) (isCff : Bool) (used : List Gid) : GAns :=
       | none => .err
       | some rows => .subset (sorted.map fun g => (g, sorted.idxOf g)) rows
 
+/-! ### loca (byte level): `build_subset_font` collects `glyph_offsets`, then picks the format -/
+
+/-- `glyph_offsets`: running sum of the (instruction-stripped) glyph lengths, `N + 1` entries -/
+def glyphOffsets : Nat → List Nat → List Nat
+  | cur, [] => [cur]
+  | cur, l :: ls => cur :: glyphOffsets (cur + l) ls
+
+/-- short format is kept iff the original was short and the last offset fits `2 * u16` -/
+def useShort (origShort : Bool) (total : Nat) : Bool := origShort && decide (total ≤ 0x1FFFE)
+
+/-- `((offset / 2) as u16)` for short, `offset` for long -/
+def locaEntries (short : Bool) (offs : List Nat) : List Nat :=
+  if short then offs.map (· / 2) else offs
+
+/-- how every reader decodes the table (OpenType `loca`): short entries are offset/2 -/
+def readLoca (short : Bool) (es : List Nat) : List Nat :=
+  if short then es.map (· * 2) else es
+
 /-! ### spec side: flattening a glyph to its outline leaves -/
 
 /-- A leaf of the flattened outline: the path of (composite header, component record)
